@@ -1,5 +1,6 @@
 import Driver.Util
 import ZvbiModel.Fmt.Model
+import ZvbiModel.Fmt.Ext
 import ZvbiModel.Fmt.Spec
 /-!
 Driver of component `fmt` (C02).  Ops (see harness/fmt_harness.c for the real-code side):
@@ -9,6 +10,10 @@ Driver of component `fmt` (C02).  Ops (see harness/fmt_harness.c for the real-co
 * `fmt lvl region pgno subno flags national hex1000`  -> `ok <cells>`   the model (`Fmt.format`)
 * `spec ...same...`                   -> `ok <cells>`               `L1Spec.page .lib` (libzvbi's held-mosaic reading)
 * `specstd ...same...`                -> `ok <cells>`               `L1Spec.page .std` (asked by the oracle only)
+* `fmtx|specx|specstdx lvl region pgno subno flags national x28 cs0 cs1 fgclut bgclut hex1000`  -> the same for a page
+  with `x28_designations` and its own extension record (`Fmt.pageInX`: the selection `x28_designations & 0x11`)
+* `fetchx lvl region pgno subno|any pgno subno flags national x28 cs0 cs1 fgclut bgclut hex1000 haveflof has24 l0 .. l5`
+  -> as `fetch`, the expected page carrying the X/28 record the sender spec expects in the cache
 * `pkt hex42`                         -> `ok`                       (the decoder is C03's model; nothing to predict here)
 * `evcount pgno subno n`              -> `ok n`                     sender-spec prediction echoed: TTX_PAGE events so far for that page
 * `events <list|->`                   -> `ok <list>`                sender-spec prediction echoed: all events so far, `pgno.subno=count,...` sorted
@@ -61,6 +66,15 @@ def pageArgs (lvl region pgno subno flags national hex : String) : Option PageIn
        && bs.length == 1000 then some (mkPage rg pg sn fl na bs) else none
   | _, _, _, _, _, _, _ => none
 
+/-- `fmtx` arguments: the page's own extension record -/
+def pageArgsX (lvl region pgno subno flags national x28 cs0 cs1 fgc bgc hex : String) : Option PageIn :=
+  match pageArgs lvl region pgno subno flags national hex, parseNat x28, parseNat cs0, parseNat cs1, parseNat fgc, parseNat bgc with
+  | some p, some x, some a, some b, some f, some g =>
+    if x < 0x1000000 && a < 256 && b < 256 && f ≤ 32 && g ≤ 48 then
+      some (pageInX p.charset0 p.pgno p.subno p.flags p.national ⟨x, a, b, f, g⟩ p.raw)
+    else none
+  | _, _, _, _, _, _ => none
+
 def parseLink (s : String) : Option Link :=
   match s.splitOn ":" with
   | [a, b] => match parseNat a, parseNat b with
@@ -91,6 +105,18 @@ def step (_ : Unit) (ws : List String) : Unit × String :=
     | ["specstd", lvl, rg, pg, sn, fl, na, hex] => match pageArgs lvl rg pg sn fl na hex with
       | some p => "ok " ++ showRows (specPage .std p)
       | none => "rej parse"
+    | ["fmtx", lvl, rg, pg, sn, fl, na, x28, cs0, cs1, fgc, bgc, hex] =>
+      match pageArgsX lvl rg pg sn fl na x28 cs0 cs1 fgc bgc hex with
+      | some p => "ok " ++ showRows (format p)
+      | none => "rej parse"
+    | ["specx", lvl, rg, pg, sn, fl, na, x28, cs0, cs1, fgc, bgc, hex] =>
+      match pageArgsX lvl rg pg sn fl na x28 cs0 cs1 fgc bgc hex with
+      | some p => "ok " ++ showRows (specPage .lib p)
+      | none => "rej parse"
+    | ["specstdx", lvl, rg, pg, sn, fl, na, x28, cs0, cs1, fgc, bgc, hex] =>
+      match pageArgsX lvl rg pg sn fl na x28 cs0 cs1 fgc bgc hex with
+      | some p => "ok " ++ showRows (specPage .std p)
+      | none => "rej parse"
     | ["pkt", hex] => match parseHex hex with
       | some bs => if bs.length == 42 then "ok" else "rej parse"
       | none => "rej parse"
@@ -104,6 +130,14 @@ def step (_ : Unit) (ws : List String) : Unit × String :=
       | _, _, _, _ => "rej parse"
     | ["fetch", lvl, rg, pg, sn, epg, esn, fl, na, hex, hf, h24, l0, l1, l2, l3, l4, l5] =>
       match parseNat pg, (if sn == "any" then some 0 else parseNat sn), pageArgs lvl rg epg esn fl na hex,
+            parseNat hf, parseNat h24, [l0, l1, l2, l3, l4, l5].mapM parseLink with
+      | some _, some _, some p, some hf, some h24, some links =>
+        let rows := format p
+        let nav := navLinks (List.replicate 6 ⟨0, 0⟩) links (hf != 0) (h24 != 0) ⟨0x100, 0x3F7F⟩ (rows.getD 24 [])
+        s!"ok {hexN p.pgno 3} {hexN p.subno 4} {showRows rows} {" ".intercalate (nav.map showLink)}"
+      | _, _, _, _, _, _ => "rej parse"
+    | ["fetchx", lvl, rg, pg, sn, epg, esn, fl, na, x28, cs0, cs1, fgc, bgc, hex, hf, h24, l0, l1, l2, l3, l4, l5] =>
+      match parseNat pg, (if sn == "any" then some 0 else parseNat sn), pageArgsX lvl rg epg esn fl na x28 cs0 cs1 fgc bgc hex,
             parseNat hf, parseNat h24, [l0, l1, l2, l3, l4, l5].mapM parseLink with
       | some _, some _, some p, some hf, some h24, some links =>
         let rows := format p
